@@ -17,8 +17,13 @@ def check(ctx, rep):
     K.rule_try_send(fm, rep)
     K.rule_send_metric_callers(fm, rep, 'R1c')
     K.rule_send_metric(fm, rep)
+    # ... and the metric object built from the formatted line keeps it verbatim (From<String> / as_metric_str of the seven
+    # metric types): what the sink is given is the text that was formatted, whole
+    from .common import KeepOnly as _KO
+    F.rule_constructors(fm, _KO(rep, ('/string-kept-verbatim',), 'R1v'), 'R1v')
     K.rule_error_type(fm, rep)
     K.rule_quiet_send(fm, rep)
+    K.rule_handler_callers(fm, rep, 'R4w')
     K.rule_handler_config(fm, rep, 'R4c')
     K.rule_rejection(fm, rep)
     K.rule_plain_forms(fm, rep)
